@@ -383,7 +383,9 @@ pub fn check(case: &Case, res: &RunResult, status: &str) -> Vec<(String, String)
       let mut seen: BTreeSet<&str> = BTreeSet::new();
       for k in ks {
         if !seen.insert(ops[*k].handle.as_str()) {
-          fire(format!("{}:{}:value-received-twice-by-one-receiver", ops[*k].sfl, ops[*k].form), format!("value {} twice on {}", v, ops[*k].handle));
+          // a stale cursor (receiver cloned from / converted out of a closed, unregistered receiver: SpmcB-N1 / N2)
+          // re-reads slots: named as a consequence of that defect
+          fire(format!("{}:{}:value-received-twice-by-one-receiver{}", ops[*k].sfl, ops[*k].form, ops[*k].taint), format!("value {} twice on {}", v, ops[*k].handle));
         }
       }
     }
@@ -409,7 +411,7 @@ pub fn check(case: &Case, res: &RunResult, status: &str) -> Vec<(String, String)
         *c += 1;
       }
     }
-    let mut per_recv: BTreeMap<String, Vec<(u32, usize)>> = BTreeMap::new();
+    let mut per_recv: BTreeMap<String, Vec<(u32, usize, &'static str)>> = BTreeMap::new();
     let mut rops: Vec<&LOp> = ops.iter().filter(|o| is_recv(&o.form) && o.ret.is_some()).collect();
     rops.sort_by_key(|o| o.ret.unwrap());
     // a manually polled receive future that overlaps other receives on the same handle has no defined
@@ -422,22 +424,24 @@ pub fn check(case: &Case, res: &RunResult, status: &str) -> Vec<(String, String)
         continue;
       }
       for v in received_values(o.res.as_ref().unwrap()) {
-        per_recv.entry(o.handle.clone()).or_default().push((v, o.ret.unwrap()));
+        per_recv.entry(o.handle.clone()).or_default().push((v, o.ret.unwrap(), o.taint));
       }
     }
     for (rh, seq) in &per_recv {
       let mut last: BTreeMap<&str, (usize, u32)> = BTreeMap::new();
-      for (v, at) in seq {
+      for (v, at, taint) in seq {
         if let Some((ph, pos)) = prod_pos.get(v) {
           if let Some((lp, lv)) = last.get(ph.as_str()) {
             if *pos < *lp {
+              // broadcast: a receiver cloned from a closed (unregistered) receiver starts at the parent's stale
+              // cursor and reads overwritten slots (SpmcB-N1): a consequence of that defect, named as such
               fire(
-                format!("{}:order:per-producer-fifo-violated", fl),
+                format!("{}:order:per-producer-fifo-violated{}", fl, if spmc { *taint } else { "" }),
                 format!("receiver {} got {} after {} but producer {} sent {} first (event {})", rh, v, lv, ph, v, at),
               );
             } else if spmc && *pos != *lp + 1 {
               fire(
-                format!("{}:order:broadcast-sequence-gap", fl),
+                format!("{}:order:broadcast-sequence-gap{}", fl, *taint),
                 format!("receiver {} got {} right after {}: not contiguous in the sent sequence (event {})", rh, v, lv, at),
               );
             }
